@@ -47,6 +47,8 @@ inductive ApiEntry where
   | addrRestart | ctxRestart
   | withStream | recreateFromDefault
   | builderOnStream | builderBoundedOnStream
+  | brokerTryPublish | brokerAddrPublish | brokerAddrSubscribe | brokerAddrUnsubscribe
+  | spawnOnStream | spawnOwningOnStream
   deriving Repr, DecidableEq
 
 def ApiEntry.all : List ApiEntry :=
@@ -54,7 +56,9 @@ def ApiEntry.all : List ApiEntry :=
    .ctxWeakSender,
    .ctxWeakCaller, .ctxInterval, .ctxIntervalWith, .ctxDelayedSend, .ctxRegisterChild, .ctxSendToChildren,
    .ctxSubscribe, .ctxPublish, .brokerPublish, .brokerSubscribe, .addrRestart, .ctxRestart, .withStream,
-   .recreateFromDefault, .builderOnStream, .builderBoundedOnStream]
+   .recreateFromDefault, .builderOnStream, .builderBoundedOnStream,
+   .brokerTryPublish, .brokerAddrPublish, .brokerAddrSubscribe, .brokerAddrUnsubscribe,
+   .spawnOnStream, .spawnOwningOnStream]
 
 structure Use where
   entry : ApiEntry
@@ -87,7 +91,8 @@ def ApiEntry.needsHandler : ApiEntry → Bool
 def ApiEntry.fireAndForget : ApiEntry → Bool
   | .addrSend | .owningSend | .addrSender | .addrWeakSender | .ctxWeakSender | .ctxInterval | .ctxIntervalWith
   | .ctxDelayedSend | .ctxRegisterChild | .ctxSendToChildren | .ctxSubscribe | .ctxPublish
-  | .brokerPublish | .brokerSubscribe => true
+  | .brokerPublish | .brokerSubscribe
+  | .brokerTryPublish | .brokerAddrPublish | .brokerAddrSubscribe | .brokerAddrUnsubscribe => true
   | _ => false
 
 /-- the property's rule set -/
@@ -97,18 +102,20 @@ def Legit (u : Use) : Prop :=
   ((u.entry = .addrRestart ∨ u.entry = .ctxRestart) → u.actor.restartable = true) ∧
   (u.entry = .withStream → u.state = .nonRestartable ∧ u.actor.streamItems.contains u.item = true) ∧
   (u.entry = .recreateFromDefault → u.actor.hasDefault = true ∧ u.actor.restartable = true) ∧
-  ((u.entry = .builderOnStream ∨ u.entry = .builderBoundedOnStream) → u.actor.streamItems.contains u.item = true)
+  ((u.entry = .builderOnStream ∨ u.entry = .builderBoundedOnStream) → u.actor.streamItems.contains u.item = true) ∧
+  ((u.entry = .spawnOnStream ∨ u.entry = .spawnOwningOnStream) → u.actor.streamItems.contains u.item = true)
 
 /-- the bounds each entry point has to carry for the rules to be enforced -/
 def required : ApiEntry → List Bound
   | .addrSend | .owningSend | .addrSender | .addrWeakSender | .ctxWeakSender | .ctxInterval | .ctxIntervalWith
   | .ctxDelayedSend | .ctxSubscribe => [.handler, .unitResponse]
   | .owningCall | .addrCall | .addrCaller | .addrWeakCaller | .ctxWeakCaller => [.handler]
-  | .ctxRegisterChild | .ctxSendToChildren | .ctxPublish | .brokerPublish | .brokerSubscribe => [.unitResponse]
+  | .ctxRegisterChild | .ctxSendToChildren | .ctxPublish | .brokerPublish | .brokerSubscribe
+  | .brokerTryPublish | .brokerAddrPublish | .brokerAddrSubscribe | .brokerAddrUnsubscribe => [.unitResponse]
   | .addrRestart | .ctxRestart => [.restartable]
   | .withStream => [.nonRestartableState, .streamHandler]
   | .recreateFromDefault => [.default, .restartable]
-  | .builderOnStream | .builderBoundedOnStream => [.streamHandler]
+  | .builderOnStream | .builderBoundedOnStream | .spawnOnStream | .spawnOwningOnStream => [.streamHandler]
 
 def wellWired19b (bounds : ApiEntry → List Bound) : Bool :=
   ApiEntry.all.all (fun e => (required e).all (fun b => (bounds e).contains b))
